@@ -179,9 +179,15 @@ VDRIVE_OP(trim)
 	TA a;
 	BuildMaybeSplit(a, c, alpha, [](TA& x) { x.RemoveUnreachableStates(); x.RemoveUselessStates(); x.IsLangEmpty(); });
 	json res;
+	// "premap": the optional out-map handed in already holds (identity) entries - e.g. one map reused over several calls;
+	// what it holds must not influence the automaton returned
+	auto premap = [&c](AutBase::StateToStateMap& m) {
+		if (c.contains("premap")) { for (const json& q : c["premap"]) { m.insert(std::make_pair(q.get<size_t>(), q.get<size_t>())); } }
+	};
 	{
 		SetStage("RemoveUnreachableStates");
 		AutBase::StateToStateMap m;
+		premap(m);
 		TA r = a.RemoveUnreachableStates(&m);
 		res["unreach"] = ReadTA(r, alpha);
 		res["unreach_map"] = StateMapToJson(m);
@@ -189,6 +195,7 @@ VDRIVE_OP(trim)
 	{
 		SetStage("RemoveUselessStates");
 		AutBase::StateToStateMap m;
+		premap(m);
 		TA r = a.RemoveUselessStates(&m);
 		res["useless"] = ReadTA(r, alpha);
 		res["useless_map"] = StateMapToJson(m);
